@@ -69,7 +69,10 @@ FINDING_SINGLE_COLUMN = "C47-read-txt-single-column"
 _jit = st.one_of(st.just(0.0), st.floats(-0.25, 0.25, allow_nan=False, allow_subnormal=False))
 _WORDS = ["pressure", "flux", "cell_diameter", "time_step", "error_var_0", "error_var_1", "T", "x", "rho_w",
           "displacement_l2", "a1", "Q"]
-_name = st.one_of(st.sampled_from(_WORDS), st.from_regex(r"[A-Za-z_][A-Za-z0-9_.\-]{0,9}", fullmatch=True))
+_LETTERS = "abcdefghijklmnopqrstuvwxyzABCDEFGHIJKLMNOPQRSTUVWXYZ_"
+_name = st.one_of(st.sampled_from(_WORDS),
+                  st.builds(lambda a, b: a + b, st.sampled_from(list(_LETTERS)),
+                            st.text(alphabet=_LETTERS + "0123456789.-", max_size=8)))
 _mag = st.builds(lambda m, e, sgn: sgn * m * 10.0 ** e, st.floats(1.0, 9.999999, allow_nan=False),
                  st.integers(-8, 7), st.sampled_from([-1.0, 1.0]))
 _val = st.one_of(st.just(0.0), st.integers(-1000, 1000).map(float), _mag,
@@ -104,7 +107,7 @@ def _poly(draw):
 
 @st.composite
 def _net3d(draw):
-    convexity = draw(st.integers(0, 9)) == 0
+    convexity = draw(st.integers(0, 24)) == 0
     polys = draw(st.lists(_poly(), min_size=1, max_size=2 if convexity else 4))
     return {"kind": "net3d", "polys": polys, "domain": draw(st.booleans()), "convexity": convexity}
 
